@@ -197,21 +197,23 @@ def obligations(tier, fns, wall):
     import cubed.runtime.executors.local as crl
 
     o = []
-    combos = [("threads", "diamond", 0, 30, 40, 10, 1), ("processes", "chain-unequal", 0, 30, 40, 10, 1), ("threads", "multi-output", 1, 30, 40, 10, 1)]
+    combos = [("threads", "diamond", 0, 30, 40, 10, 0), ("processes", "chain-unequal", 0, 30, 40, 10, 1), ("threads", "multi-output", 1, 30, 40, 10, 0)]
     if tier != "quick":
         combos = [(m, dn, opt, 40, 60, 12, 2) for m in ("threads", "processes") for dn in ("chain-unequal", "diamond", "independent", "multi-output", "rechunk-then-add") for opt in (0, 1)]
     for mode, dn, opt, n_o, n_d, n_p, mr in combos:
-        vs = c07.vars_(n_o, n_d, n_p) + [("par", 0, 2), ("batch", 0, 2), ("retries", 0, 2), ("kfail", 0, 0 if mode == "processes" else 3)]
+        # the full retries x failures range is C08's executor-retry-budget obligation; here the schedule is the subject
+        rk = (1, 1) if tier == "quick" else (2, 3)
+        vs = c07.vars_(n_o, n_d, n_p) + [("par", 0, 2), ("batch", 0, 2), ("retries", 0, rk[0]), ("kfail", 0, 0 if mode == "processes" else rk[1])]
         o.append(Obl(f"executor-wiring[{mode},{dn},optimize={opt}]", make(mode, dn, opt, n_o, n_d, n_p, mr), vs, setup=c07.setup,
                      functions=fns + [crl.ThreadsExecutor._async_execute_dag, crl.ProcessesExecutor._async_execute_dag, crl.threads_create_futures_func,
                                       crl.processes_create_futures_func, crl.unpickle_and_call, crl.run_func_threads, crl.run_func_processes, crl.check_runtime_memory],
                      wall_s=wall,
                      bounds=f"real {mode} executor entry (_async_execute_dag) on plan '{dn}' (optimize_graph={bool(opt)}); compute_arrays_in_parallel None/False/True, batch_size None/1/2, "
-                            f"retries 0..2, 0..3 failures of every stage call (threads), schedules as in barrier[...] (<= {n_o} observations, <= {mr} 'still running')",
+                            f"retries 0..{rk[0]}, 0..{rk[1]} failures of every stage call (threads), schedules as in barrier[...] (<= {n_o} observations, <= {mr} 'still running')",
                      outside="the worker pool itself (ThreadPoolExecutor / ProcessPoolExecutor -> StubPool: submit() runs the submitted callable once on a recording stage function and hands back a scheduler-stub future); memray/timing decorators run for real",
                      stubs=["StubPool", "sched.ShimAsyncio", "sched.ShimTime", "sched.ShimStream"],
                      witness_rule=lambda m: m.get("kfail", 0) >= 1 or m.get("batch", 0) >= 1))
     o.append(Obl("twin:executor-wiring[threads,diamond]", make("threads", "diamond", 0, 30, 40, 10, 0, twin=True),
-                 c07.vars_(30, 40, 10) + [("par", 0, 2), ("batch", 0, 2), ("retries", 0, 2), ("kfail", 0, 3)], setup=c07.setup,
+                 c07.vars_(30, 40, 10) + [("par", 0, 2), ("batch", 0, 2), ("retries", 0, 1), ("kfail", 0, 1)], setup=c07.setup,
                  twin_of="executor-wiring[threads,diamond,optimize=0]", wall_s=wall))
     return o
